@@ -170,6 +170,18 @@ PROPS["C17"] = {
     "assumptions": H3_ASSUME,
 }
 
+PROPS["C11"] = {
+    "engine": "h3",
+    "level": "exploration",
+    "budget": {"quick": 45, "thorough": 600},
+    "runs_per_proc": 30,
+    "technique": "deterministic simulation of one real server with the internal cursors stream: 2-6 client tasks issue SetCursor/FetchCursor on hot keys (unique values), flood the cursor cache, sleep across auto-pause and cleaner ticks on the fake clock, restart or crash the server; per-key histories checked with porcupine (nondeterministic register: a failed set may or may not have been stored)",
+    "level_text": "seeded exploration of interleavings between cursor writes, cache fills after a miss, compaction/segment rolls of the cursors partition, auto-pause/resume and server restarts; every key's history must be linearizable against a register with initial value -1",
+    "level_note": "single server (a leader change of the cursors partition is exercised as restart of the only replica); histories are cut at 200 operations per key; an inconclusive porcupine run is counted, not reported",
+    "rule": "programs of 8-48 (thorough -108) operations over 4 hot keys; distinct = distinct event-log hash; non-trivial = >=2 sets and >=2 successful fetches",
+    "assumptions": H3_ASSUME,
+}
+
 NOT_APPLICABLE = [
     {"property_id": pid, "reason": "check not built yet in this round (engine under construction); see DESIGN.md section 9 build order"}
     for pid in ["C%02d" % i for i in range(1, 20)] if pid not in PROPS
